@@ -74,8 +74,8 @@ func c22bWatch(s *vPairSide) *c22bSide {
 func TestVerifC22Live(t *testing.T) {
 	c := vkit.New("C22", "exploration")
 	defer c.Finish(t)
-	scenarios := []string{"plain", "answerer-dtls-stopped-before", "offerer-dtls-stopped-before", "fingerprint-mismatch"}
-	c.Rule(fmt.Sprintf("%d scenarios on real loopback pairs (normal connection; the DTLS transport of the answerer / the offerer stopped by the application before negotiating, so that DTLSTransport.Start is refused while the transport is closed; a wrong fingerprint in the answer, so that DTLS really fails), both sides: every state the connection-state handler reports is the W3C aggregate of SOME ICE connection state and SOME DTLS transport state the side's transports were observed in (handler records of both transports, plus their initial states), closed only after Close; before Close, once nothing is in flight, the stored state is the aggregate of the transports' current states", len(scenarios)))
+	scenarios := []string{"plain", "answerer-dtls-stopped-before", "offerer-dtls-stopped-before", "fingerprint-mismatch", "ice-disconnected-when-dtls-start-returns"}
+	c.Rule(fmt.Sprintf("%d scenarios on real loopback pairs (normal connection; the DTLS transport of the answerer / the offerer stopped by the application before negotiating, so that DTLSTransport.Start is refused while the transport is closed; a wrong fingerprint in the answer, so that DTLS really fails; the answerer's ICE transport reporting disconnected while its DTLS handshake completes, so that the update after DTLSTransport.Start has ICE disconnected and DTLS connected as inputs), both sides: every state the connection-state handler reports is the W3C aggregate of SOME ICE connection state and SOME DTLS transport state the side's transports were observed in (handler records of both transports, plus their initial states), closed only after Close; before Close, once nothing is in flight, the stored state is the aggregate of the transports' current states", len(scenarios)))
 	c.Set("schedules_enumerated", false)
 	c.Assume("the schedule of ICE/DTLS over loopback is whatever happens; the oracle is order-free (sets of observed transport states), so it cannot raise an alarm because of timing")
 	if _, ok := c.ReplayCase(); ok {
@@ -92,6 +92,32 @@ func TestVerifC22Live(t *testing.T) {
 				vPairFatalf("CreateDataChannel: %v", err)
 			}
 			switch sc {
+			case "ice-disconnected-when-dtls-start-returns":
+				// the answerer's ICE transport reports `disconnected` while its DTLS handshake completes: the
+				// harness replays, from inside the DTLS state handler (which runs before DTLSTransport.Start
+				// returns), what the ICE agent's callback does for a disconnected notification, and lets the
+				// handler return only when the connection has taken note of it. The update startTransports makes
+				// after Start then has ICE disconnected and DTLS connected as its inputs.
+				pc := p.B.PC
+				dt := pc.dtlsTransport
+				dt.lock.Lock()
+				prev := dt.onStateChangeHandler
+				dt.onStateChangeHandler = func(st DTLSTransportState) {
+					if prev != nil {
+						prev(st)
+					}
+					if st != DTLSTransportStateConnected {
+						return
+					}
+					go func() {
+						pc.iceTransport.setState(ICETransportStateDisconnected)
+						pc.iceTransport.onConnectionStateChange(ICETransportStateDisconnected)
+					}()
+					for until := time.Now().Add(5 * time.Second); time.Now().Before(until) && pc.ICEConnectionState() != ICEConnectionStateDisconnected; {
+						time.Sleep(time.Millisecond)
+					}
+				}
+				dt.lock.Unlock()
 			case "answerer-dtls-stopped-before":
 				_ = p.B.PC.SCTP().Transport().Stop()
 			case "offerer-dtls-stopped-before":
@@ -128,7 +154,8 @@ func TestVerifC22Live(t *testing.T) {
 			for time.Now().Before(settle) {
 				ia, ib := p.A.PC.ICEConnectionState(), p.B.PC.ICEConnectionState()
 				done := func(s ICEConnectionState) bool {
-					return s == ICEConnectionStateConnected || s == ICEConnectionStateCompleted || s == ICEConnectionStateFailed
+					return s == ICEConnectionStateConnected || s == ICEConnectionStateCompleted || s == ICEConnectionStateFailed ||
+						(s == ICEConnectionStateDisconnected && sc == "ice-disconnected-when-dtls-start-returns")
 				}
 				if done(ia) && done(ib) {
 					break
